@@ -14,9 +14,13 @@
 #include <llvm/Support/raw_ostream.h>
 #include <z3++.h>
 #include <algorithm>
+#include <fstream>
+#include <sys/wait.h>
+#include <unistd.h>
 #include <chrono>
 #include <cstring>
 #include <cctype>
+#include <cmath>
 #include <strings.h>
 #include <functional>
 #include <iostream>
@@ -83,7 +87,11 @@ struct State {
     uint64_t nextAddr = 0x10000000;
     std::vector<z3::expr> pc;
     std::vector<std::pair<std::string, z3::expr>> inputs;
+    std::vector<bool> inputKey;
     std::set<std::string> reached;
+    std::shared_ptr<z3::model> lastModel;
+    std::string notes;
+    int64_t budget = -1;  // remaining instructions allowed by vf_budget (-1: none)
     std::vector<std::pair<z3::expr, z3::expr>> fixed;
     std::set<unsigned> fixedIdx;
     struct Exc { uint64_t obj = 0, tinfo = 0, dtor = 0; };
@@ -93,12 +101,28 @@ struct State {
     int id = 0;
 };
 
-struct Stats {
-    uint64_t ctor_insts = 0, symaddr = 0, paths = 0, insts = 0, queries = 0, asserts_checked = 0, violations = 0, errors = 0, forks = 0;
-    double solver_s = 0;
-    std::set<std::string> fns, reach;
-    std::map<std::string, uint64_t> assert_ids, uncaught;
+struct Violation {
+    std::string kind, id, msg, stack;
+    std::vector<std::pair<std::string, std::string>> keys, model;
+    bool truncated = false;
 };
+struct Stats {
+    uint64_t ctor_insts = 0, symaddr = 0, paths = 0, insts = 0, queries = 0, asserts_checked = 0, violations = 0, errors = 0, forks = 0, cache_hits = 0, max_path_insts = 0, external_queries = 0, external_unsat = 0;
+    double solver_s = 0;
+    std::set<std::string> fns, reach, keysigs;
+    std::map<std::string, uint64_t> assert_ids, uncaught, ends;
+    std::vector<std::string> samples;
+};
+static std::string jesc(const std::string& s)
+{
+    std::string r;
+    for (unsigned char c : s) {
+        if (c == '"' || c == '\\') { r.push_back('\\'); r.push_back(c); }
+        else if (c < 0x20 || c >= 0x7f) { char b[8]; snprintf(b, sizeof b, "\\u%04x", c); r += b; }
+        else r.push_back(c);
+    }
+    return r;
+}
 
 // ---------------------------------------------------------------- executor
 class Exec {
@@ -110,7 +134,7 @@ public:
     std::map<const GlobalValue*, uint64_t> gaddr;
     std::map<uint64_t, Function*> faddr;
     std::vector<State> work;
-    std::vector<std::string> violations, errors;
+    std::vector<std::string> errors;
     uint64_t maxPaths = 100000, maxSteps = 50000000;
     bool verbose = false, forkOnAddr = true;
     int nextState = 1;
@@ -121,26 +145,106 @@ public:
     Exec(Module& m) : M(m), DL(m.getDataLayout()) { initExt(); }
 
     // ---- solver
+    unsigned timeoutMs = 10000;
+    std::string externalCmd;
+    std::map<std::string, uint64_t> concreteInputs;  // --inputs: concrete replay inside the engine
+    bool concreteMode = false;
+    std::vector<Violation> viols;
     z3::check_result check(State& s, const z3::expr* extra, z3::model* model = nullptr)
     {
         auto t0 = std::chrono::steady_clock::now();
         z3::solver sol(ZC);
+        z3::params p(ZC); p.set("timeout", timeoutMs); sol.set(p);
         for (auto& c : s.pc) sol.add(c);
         if (extra) sol.add(*extra);
         auto r = sol.check();
-        if (r == z3::sat && model) *model = sol.get_model();
+        if (r == z3::unknown && !externalCmd.empty()) {
+            // second opinion: export the query as SMT-LIB2 and ask an external solver (only an `unsat` answer is used)
+            std::string f = jsonPath + ".q" + std::to_string(getpid()) + ".smt2";
+            { std::ofstream o(f); o << "(set-logic ALL)\n" << sol.to_smt2(); }
+            std::string cmd = externalCmd + " " + f + " 2>&1";
+            st.external_queries++;
+            if (FILE* p = popen(cmd.c_str(), "r")) {
+                char buf[256]; std::string out;
+                while (fgets(buf, sizeof buf, p)) out += buf;
+                pclose(p);
+                if (out.find("(error") == std::string::npos && out.compare(0, 5, "unsat") == 0) { r = z3::unsat; st.external_unsat++; }
+            }
+            unlink(f.c_str());
+        }
+        if (r == z3::sat) {
+            auto m = std::make_shared<z3::model>(sol.get_model());
+            if (model) *model = *m;
+            if (!extra || true) s.lastModel = m;  // satisfies pc (and extra); valid for pc
+        }
         st.queries++;
         st.solver_s += std::chrono::duration<double>(std::chrono::steady_clock::now() - t0).count();
         return r;
+    }
+    // does the cached model of pc make c true?
+    bool modelSays(State& s, const z3::expr& c)
+    {
+        if (!s.lastModel) return false;
+        try { z3::expr v = s.lastModel->eval(c, true); if (v.is_true()) { st.cache_hits++; return true; } } catch (z3::exception&) {}
+        return false;
     }
     bool maybe(State& s, z3::expr c)
     {
         c = c.simplify();
         if (c.is_true()) return true;
         if (c.is_false()) return false;
+        if (modelSays(s, c)) return true;
         auto r = check(s, &c);
         if (r == z3::unknown) throw EngineError("solver returned unknown");
         return r == z3::sat;
+    }
+    void addPc(State& s, const z3::expr& c)
+    {
+        // keep the cached model only if it still satisfies the new constraint
+        if (s.lastModel) { bool ok = false; try { ok = s.lastModel->eval(c, true).is_true(); } catch (z3::exception&) {} if (!ok) s.lastModel.reset(); }
+        s.pc.push_back(c);
+    }
+
+    // ---- violation reporting: enumerate all distinct assignments of the key inputs (cap) that reach the failure
+    std::string stackStr(State& s)
+    {
+        std::string r;
+        for (int i = (int)s.stack.size() - 1, k = 0; i >= 0 && k < 8; i--, k++) { if (k) r += " < "; r += s.stack[i].fn->getName().str(); }
+        return r;
+    }
+    void reportViolation(State& s, const std::string& kind, const std::string& id, const std::string& msg, const z3::expr* bad)
+    {
+        const unsigned cap = 64;
+        z3::solver sol(ZC);
+        z3::params p(ZC); p.set("timeout", timeoutMs); sol.set(p);
+        for (auto& c : s.pc) sol.add(c);
+        if (bad) sol.add(*bad);
+        unsigned n = 0;
+        std::string stk = stackStr(s);
+        for (;;) {
+            st.queries++;
+            auto r = sol.check();
+            if (r != z3::sat) break;
+            z3::model m = sol.get_model();
+            Violation v; v.kind = kind; v.id = id; v.msg = msg; v.stack = stk;
+            z3::expr block = ZC.bool_val(false);
+            bool anyKey = false;
+            for (unsigned i = 0; i < s.inputs.size(); i++) {
+                z3::expr val = m.eval(s.inputs[i].second, true);
+                // pinned inputs were substituted away: use the pinned value
+                for (auto& fx : s.fixed) if (z3::eq(fx.first, s.inputs[i].second)) val = fx.second;
+                std::string vs;
+                { uint64_t u = 0; if (val.is_numeral_u64(u)) vs = std::to_string(u); else { std::ostringstream os; os << val; vs = os.str(); } }
+                v.model.push_back({s.inputs[i].first, vs});
+                if (s.inputKey[i]) { v.keys.push_back({s.inputs[i].first, vs}); block = block || (s.inputs[i].second != val); anyKey = true; }
+            }
+            n++;
+            if (n >= cap) v.truncated = true;
+            viols.push_back(v); st.violations++;
+            if (!anyKey || n >= cap) break;
+            sol.add(block);
+        }
+        if (n == 0) { Violation v; v.kind = kind; v.id = id; v.msg = msg + " (no model: solver gave up)"; v.stack = stk; viols.push_back(v); st.violations++; }
     }
 
     // ---- memory
@@ -180,12 +284,16 @@ public:
         if (!p.sym) return p.c;
         throw EngineError(std::string("symbolic pointer in ") + what + " (not supported in prototype)");
     }
-    std::vector<uint64_t> feasibleAddrs(State& s, const Val& p, unsigned cap = 1024)
+    // enumerate feasible values of a symbolic pointer; with nbytes>0 every value that does not address nbytes of a live
+    // object is reported as a fault (with a model) and excluded
+    std::vector<uint64_t> feasibleAddrs(State& s, const Val& p, unsigned nbytes = 0, unsigned cap = 2048)
     {
         std::vector<uint64_t> r;
         z3::solver sol(ZC);
+        z3::params pr(ZC); pr.set("timeout", timeoutMs); sol.set(pr);
         for (auto& c : s.pc) sol.add(c);
         auto t0 = std::chrono::steady_clock::now();
+        unsigned faults = 0;
         while (true) {
             st.queries++;
             auto res = sol.check();
@@ -193,7 +301,41 @@ public:
             if (res != z3::sat) break;
             z3::model m = sol.get_model();
             uint64_t v = m.eval(p.e, true).get_numeral_uint64();
-            r.push_back(v);
+            ObjP o = nbytes ? findObj(s, v, nbytes) : nullptr;
+            if (nbytes && (!o || o->freed)) {
+                State t = s; z3::expr q = p.e == ZC.bv_val(v, 64); addPc(t, q);
+                reportViolation(t, "fault", "mem", "invalid access of " + std::to_string(nbytes) + " bytes through symbolic address " + std::to_string(v), nullptr);
+                if (++faults >= 3) {
+                    // stop enumerating wild addresses: keep only addresses inside the objects seen so far
+                    z3::expr in = ZC.bool_val(false);
+                    std::set<uint64_t> bases;
+                    for (auto a : r) { ObjP ob = findObj(s, a, nbytes); if (ob && bases.insert(ob->base).second) in = in || (z3::uge(p.e, ZC.bv_val(ob->base, 64)) && z3::ule(p.e, ZC.bv_val(ob->base + ob->size - nbytes, 64))); }
+                    sol.add(in);
+                }
+            } else {
+                r.push_back(v);
+                if (nbytes && r.size() == 1) {
+                    // quick out-of-bounds test relative to the first object
+                    sol.push();
+                    sol.add(!(z3::uge(p.e, ZC.bv_val(o->base, 64)) && z3::ule(p.e, ZC.bv_val(o->base + o->size - nbytes, 64))));
+                    st.queries++;
+                    if (sol.check() == z3::sat) {
+                        z3::model m2 = sol.get_model();
+                        uint64_t v2 = m2.eval(p.e, true).get_numeral_uint64();
+                        ObjP o2 = findObj(s, v2, nbytes);
+                        if (!o2 || o2->freed) {
+                            State t = s; z3::expr q = p.e == ZC.bv_val(v2, 64); addPc(t, q);
+                            reportViolation(t, "fault", "mem", "out-of-bounds access of " + std::to_string(nbytes) + " bytes: object " + o->name + " size " + std::to_string(o->size) + ", address " + std::to_string((long)(v2 - o->base)) + " relative to it", nullptr);
+                            faults = 3;
+                            sol.pop();
+                            sol.add(z3::uge(p.e, ZC.bv_val(o->base, 64)) && z3::ule(p.e, ZC.bv_val(o->base + o->size - nbytes, 64)));
+                            sol.add(p.e != ZC.bv_val(v, 64));
+                            continue;
+                        }
+                    }
+                    sol.pop();
+                }
+            }
             if (r.size() > cap) throw EngineError("too many feasible addresses");
             sol.add(p.e != ZC.bv_val(v, 64));
         }
@@ -204,7 +346,7 @@ public:
     Val load(State& s, const Val& ptr, unsigned bits)
     {
         if (ptr.sym) {
-            auto as = feasibleAddrs(s, ptr);
+            auto as = feasibleAddrs(s, ptr, (bits + 7) / 8);
             if (as.empty()) throw EngineError("no feasible address");
             Val r = load(s, Val(64, as[0]), bits);
             for (size_t i = 1; i < as.size(); i++) {
@@ -255,7 +397,7 @@ public:
     {
         if (v.isAgg()) throw EngineError("aggregate store");
         if (ptr.sym) {
-            auto as = feasibleAddrs(s, ptr);
+            auto as = feasibleAddrs(s, ptr, (v.bits + 7) / 8);
             for (auto a : as) {
                 Val old = load(s, Val(64, a), v.bits);
                 store(s, Val(64, a), mkSym(v.bits, z3::ite(ptr.e == ZC.bv_val(a, 64), v.ex(), old.ex())));
@@ -318,6 +460,7 @@ public:
         if (auto* cf = dyn_cast<ConstantFP>(C)) {
             if (C->getType()->isDoubleTy()) return Val(64, cf->getValueAPF().bitcastToAPInt().getZExtValue());
             if (C->getType()->isFloatTy()) return Val(32, cf->getValueAPF().bitcastToAPInt().getZExtValue());
+            if (C->getType()->isX86_FP80Ty()) { bool li; APFloat f = cf->getValueAPF(); f.convert(APFloat::IEEEdouble(), APFloat::rmNearestTiesToEven, &li); return Val(64, f.bitcastToAPInt().getZExtValue()); }  // long double is carried as double (only nexttoward's direction argument uses it)
             throw EngineError("fp constant type");
         }
         if (auto* gv = dyn_cast<GlobalValue>(C)) {
@@ -391,6 +534,7 @@ public:
         for (auto& G : M.globals())
             if (G.isConstant() && G.hasInitializer()) s.mem[gaddr[&G]]->readonly = true;
         if (auto* g = M.getNamedGlobal("__libc_single_threaded")) store(s, Val(64, gaddr[g]), Val(8, 1));
+        errnoAddr = alloc(s, 4, "errno")->base;
     }
 
     // ---- frames / operands
@@ -423,15 +567,42 @@ public:
         Frame& f = s.stack.back();
         f.regs[slot(f, v)] = applyFixed(s, x);
     }
-    void fixInputs(State& s)
+    static void collectConsts(const z3::expr& e, std::set<unsigned>& seen, std::set<std::string>& out)
     {
-        z3::model m(ZC);
-        if (check(s, nullptr, &m) != z3::sat) return;
+        if (!e.is_app()) return;
+        if (!seen.insert(e.id()).second) return;
+        if (e.is_const() && !e.is_numeral()) { out.insert(e.decl().name().str()); return; }
+        for (unsigned i = 0; i < e.num_args(); i++) collectConsts(e.arg(i), seen, out);
+    }
+    // pin inputs that the path condition makes unique (restricted to inputs occurring in the new constraint c)
+    void fixInputs(State& s, const z3::expr* c = nullptr, bool solverForAll = false)
+    {
+        std::set<std::string> names; std::set<unsigned> seen;
+        if (c) { collectConsts(*c, seen, names); if (names.empty()) return; }
+        std::vector<unsigned> cand;
         for (unsigned i = 0; i < s.inputs.size(); i++) {
             if (s.fixedIdx.count(i)) continue;
+            if (c && !names.count(s.inputs[i].first)) continue;
+            if (!s.inputKey[i] && !solverForAll) {
+                // syntactic fast path only: c is (input == numeral)
+                if (c && c->is_eq() && c->num_args() == 2) {
+                    z3::expr l = c->arg(0), r = c->arg(1);
+                    if (z3::eq(l, s.inputs[i].second) && r.is_numeral()) { s.fixed.push_back({l, r}); s.fixedIdx.insert(i); }
+                    else if (z3::eq(r, s.inputs[i].second) && l.is_numeral()) { s.fixed.push_back({r, l}); s.fixedIdx.insert(i); }
+                }
+                continue;
+            }
+            cand.push_back(i);
+        }
+        if (cand.empty()) return;
+        z3::model m(ZC);
+        if (s.lastModel) m = *s.lastModel; else if (check(s, nullptr, &m) != z3::sat) return;
+        for (unsigned i : cand) {
             z3::expr v = m.eval(s.inputs[i].second, true);
             z3::expr ne = s.inputs[i].second != v;
+            auto keep = s.lastModel;
             if (check(s, &ne) == z3::unsat) { s.fixed.push_back({s.inputs[i].second, v}); s.fixedIdx.insert(i); }
+            else if (keep) s.lastModel = keep;  // keep the model that matches the values we are testing against
         }
     }
     void pushFrame(State& s, Function* F, std::vector<Val>& args, CallBase* cs)
@@ -538,29 +709,40 @@ public:
     // ---- externals
     void initExt()
     {
-        auto symIn = [this](unsigned bits) {
-            return [this, bits](State& s, CallBase& cb, std::vector<Val>& a, Val& r) {
-                std::string n = readCStr(s, a[0].c) + "#" + std::to_string(s.inputs.size());
-                z3::expr e = ZC.bv_const(n.c_str(), bits);
-                s.inputs.push_back({n, e});
-                r = Val(bits, e);
-                return true;
-            };
+        // ---- harness API
+        auto newInput = [this](State& s, const std::string& base0, unsigned bits, bool key, Val& r) {
+            std::string base = (!base0.empty() && base0[0] == '!') ? base0.substr(1) : base0;
+            std::string n = base + "#" + std::to_string(s.inputs.size());
+            z3::expr e = ZC.bv_const(n.c_str(), bits);
+            s.inputs.push_back({n, e});
+            s.inputKey.push_back(key);
+            if (concreteMode) {
+                auto it = concreteInputs.find(n);
+                uint64_t v = it == concreteInputs.end() ? 0 : it->second;
+                s.fixed.push_back({e, ZC.bv_val(v, bits)}); s.fixedIdx.insert(s.inputs.size() - 1);
+                r = Val(bits, v);
+            } else r = Val(bits, e);
+        };
+        auto symIn = [this, newInput](unsigned bits) {
+            return [this, bits, newInput](State& s, CallBase& cb, std::vector<Val>& a, Val& r) { newInput(s, readCStr(s, a[0].c), bits, false, r); return true; };
         };
         ext["vf_int"] = symIn(32); ext["vf_uint"] = symIn(32); ext["vf_long"] = symIn(64);
-        ext["vf_i8"] = symIn(8); ext["vf_i16"] = symIn(16); ext["vf_double"] = symIn(64);
-        ext["vf_range"] = [this](State& s, CallBase&, std::vector<Val>& a, Val& r) {
-            std::string n = readCStr(s, a[0].c) + "#" + std::to_string(s.inputs.size());
-            z3::expr e = ZC.bv_const(n.c_str(), 32);
-            s.inputs.push_back({n, e});
-            s.pc.push_back(e >= a[1].ex() && e <= a[2].ex());
-            r = Val(32, e);
+        ext["vf_i8"] = symIn(8); ext["vf_i16"] = symIn(16); ext["vf_double"] = symIn(64); ext["vf_u8"] = symIn(8);
+        ext["vf_range"] = ext["vf_pick"] = ext["vf_bool"] = [this, newInput](State& s, CallBase& cb, std::vector<Val>& a, Val& r) {
+            std::string fn = cb.getCalledFunction()->getName().str();
+            int64_t lo = 0, hi = 1;
+            if (fn == "vf_range") { lo = a[1].sext(); hi = a[2].sext(); } else if (fn == "vf_pick") { hi = a[1].sext() - 1; }
+            if (hi < lo) return false;
+            newInput(s, readCStr(s, a[0].c), 32, true, r);
+            if (!r.sym) { if (r.sext() < lo || r.sext() > hi) r = Val(32, (uint64_t)lo); return true; }
+            if (lo == hi) { s.fixed.push_back({r.e, ZC.bv_val((uint64_t)lo, 32)}); s.fixedIdx.insert(s.inputs.size() - 1); r = Val(32, (uint64_t)lo); return true; }
+            addPc(s, r.e >= ZC.bv_val((uint64_t)lo, 32) && r.e <= ZC.bv_val((uint64_t)hi, 32));
             return true;
         };
         ext["vf_assume"] = [this](State& s, CallBase&, std::vector<Val>& a, Val&) {
             z3::expr c = a[0].sym ? (a[0].e != ZC.bv_val(0, a[0].bits)) : ZC.bool_val(a[0].c != 0);
             if (!maybe(s, c)) return false;  // infeasible: path ends silently
-            if (!c.simplify().is_true()) s.pc.push_back(c);
+            if (!c.simplify().is_true()) { z3::expr cs = c.simplify(); addPc(s, cs); fixInputs(s, &cs); }
             return true;
         };
         ext["vf_reach"] = [this](State& s, CallBase&, std::vector<Val>& a, Val&) {
@@ -568,28 +750,56 @@ public:
             s.reached.insert(id); st.reach.insert(id);
             return true;
         };
+        ext["vf_note"] = [this](State& s, CallBase&, std::vector<Val>& a, Val&) { s.notes += readCStr(s, a[0].c); s.notes += "\n"; return true; };
+        ext["vf_notei"] = [this](State& s, CallBase&, std::vector<Val>& a, Val&) {
+            s.notes += readCStr(s, a[0].c) + "=";
+            if (a[1].sym) { z3::model m(ZC); if (check(s, nullptr, &m) == z3::sat) { std::ostringstream os; os << m.eval(a[1].e, true); s.notes += "sym:" + os.str(); } }
+            else s.notes += std::to_string((long)a[1].sext());
+            s.notes += "\n"; return true; };
+        ext["vf_budget"] = [this](State& s, CallBase&, std::vector<Val>& a, Val&) { s.budget = a[0].sext(); return true; };
+        ext["vf_is_symbolic"] = [this](State&, CallBase&, std::vector<Val>&, Val& r) { r = Val(32, concreteMode ? 0 : 1); return true; };
+        ext["vf_concretize"] = [this](State& s, CallBase&, std::vector<Val>& a, Val& r) {
+            // returns one feasible value of the argument and constrains the path to it (recorded narrowing)
+            if (!a[0].sym) { r = a[0]; return true; }
+            z3::model m(ZC);
+            if (check(s, nullptr, &m) != z3::sat) return false;
+            uint64_t v = m.eval(a[0].e, true).get_numeral_uint64();
+            { z3::expr q = a[0].e == ZC.bv_val(v, a[0].bits); addPc(s, q); fixInputs(s, &q, true); }
+            r = Val(a[0].bits, v); return true; };
         ext["vf_assert"] = [this](State& s, CallBase&, std::vector<Val>& a, Val&) {
             std::string id = readCStr(s, a[1].c);
             st.asserts_checked++; st.assert_ids[id]++;
             z3::expr bad = a[0].sym ? (a[0].e == ZC.bv_val(0, a[0].bits)) : ZC.bool_val(a[0].c == 0);
             bad = bad.simplify();
+            if (concreteMode) { s.notes += std::string("assert ") + id + (bad.is_false() ? " ok\n" : " FAIL\n"); }
             if (bad.is_false()) return true;
             z3::model m(ZC);
             auto r = check(s, &bad, &m);
             if (r == z3::unknown) throw EngineError("solver unknown at assert " + id);
             if (r == z3::sat) {
-                std::ostringstream os;
-                os << "assert " << id << " fails with";
-                for (auto& [n, e] : s.inputs) os << " " << n << "=" << m.eval(e, true);
-                violations.push_back(os.str());
-                st.violations++;
-                s.pc.push_back(!bad);  // continue on the passing side if feasible
-                if (!maybe(s, ZC.bool_val(true))) return false;
+                reportViolation(s, "assert", id, "assertion " + id + " can fail", &bad);
+                addPc(s, !bad);  // continue on the passing side if feasible
                 z3::expr t = ZC.bool_val(true);
                 if (check(s, &t) != z3::sat) return false;
             }
             return true;
         };
+        for (const char* nm : {"abort", "exit", "_ZSt9terminatev", "__cxa_pure_virtual", "__assert_fail", "_exit", "quick_exit"}) {
+            std::string n = nm;
+            ext[n] = [n](State&, CallBase&, std::vector<Val>&, Val&) -> bool { throw MemFault("process termination via " + n); };
+        }
+        ext["nexttoward"] = [](State&, CallBase&, std::vector<Val>& a, Val& r) {
+            if (a[0].sym || a[1].sym) throw EngineError("symbolic nexttoward");
+            double x, y; memcpy(&x, &a[0].c, 8); memcpy(&y, &a[1].c, 8);
+            double z = nexttoward(x, (long double)y); uint64_t u; memcpy(&u, &z, 8); r = Val(64, u); return true; };
+        for (const char* nm : {"sin", "cos", "exp", "log", "sqrt", "floor", "ceil", "fabs", "tan", "pow", "fmod"}) {
+            std::string n = nm;
+            ext[n] = [n](State&, CallBase&, std::vector<Val>& a, Val& r) {
+                if (a[0].sym || (a.size() > 1 && a[1].sym)) throw EngineError("symbolic libm call " + n);
+                double x, y = 0, z; memcpy(&x, &a[0].c, 8); if (a.size() > 1) memcpy(&y, &a[1].c, 8);
+                z = n == "sin" ? sin(x) : n == "cos" ? cos(x) : n == "exp" ? exp(x) : n == "log" ? log(x) : n == "sqrt" ? sqrt(x) : n == "floor" ? floor(x) : n == "ceil" ? ceil(x) : n == "fabs" ? fabs(x) : n == "tan" ? tan(x) : n == "pow" ? pow(x, y) : fmod(x, y);
+                uint64_t u; memcpy(&u, &z, 8); r = Val(64, u); return true; };
+        }
         ext["malloc"] = ext["_Znwm"] = ext["_Znam"] = [this](State& s, CallBase&, std::vector<Val>& a, Val& r) {
             if (a[0].sym) throw EngineError("symbolic malloc size");
             r = Val(64, alloc(s, a[0].c, "heap", true)->base);
@@ -637,7 +847,7 @@ public:
                 r = Val(32, (uint64_t)v); return true; };
         }
         ext["strcasecmp"] = [this](State& s, CallBase&, std::vector<Val>& a, Val& r) { r = Val(32, (uint64_t)strcasecmp(readCStr(s, a[0].c).c_str(), readCStr(s, a[1].c).c_str())); return true; };
-        ext["__errno_location"] = [this](State& s, CallBase&, std::vector<Val>&, Val& r) { static uint64_t addr = 0; if (!addr || !s.mem.count(addr)) addr = alloc(s, 4, "errno")->base; r = Val(64, addr); return true; };
+        ext["__errno_location"] = [this](State& s, CallBase&, std::vector<Val>&, Val& r) { r = Val(64, errnoAddr); return true; };
         ext["stpcpy"] = [this](State& s, CallBase&, std::vector<Val>& a, Val& r) {
             uint64_t i = 0;
             for (;; i++) { Val b = load(s, Val(64, a[1].c + i), 8); if (b.sym) throw EngineError("sym stpcpy"); store(s, Val(64, a[0].c + i), b); if (!b.c) break; }
@@ -749,10 +959,44 @@ public:
     // ---- main loop
     void finishPath(State& s, const char* why)
     {
+        if (!strcmp(why, "forked")) { st.insts += s.steps; s.steps = 0; return; }
         st.paths++;
         st.insts += s.steps;
+        st.ends[why]++;
+        if (s.steps > st.max_path_insts) st.max_path_insts = s.steps;
+        // signature of the pinned key inputs = one explored case
+        std::string sig;
+        for (unsigned i = 0; i < s.inputs.size(); i++) {
+            if (!s.inputKey[i]) continue;
+            std::string v = "*";
+            for (auto& fx : s.fixed) if (z3::eq(fx.first, s.inputs[i].second)) { std::ostringstream os; uint64_t u; if (fx.second.is_numeral_u64(u)) os << (int32_t)u; else os << fx.second; v = os.str(); }
+            sig += s.inputs[i].first.substr(0, s.inputs[i].first.find('#')) + "=" + v + " ";
+        }
+        if (!sig.empty()) { if (st.keysigs.size() < 200000) st.keysigs.insert(sig); if (st.samples.size() < 12 && (st.paths % 7 == 1 || st.samples.empty())) st.samples.push_back(sig + "-> " + why); }
+        if (concreteMode) std::cout << "NOTES-BEGIN\n" << s.notes << "end " << why << "\nNOTES-END\n";
         if (verbose) std::cerr << "path " << s.id << " ends: " << why << " steps=" << s.steps << "\n";
     }
+    void runState(State& s)
+    {
+        try {
+            const char* why = exec(s);
+            finishPath(s, why);
+        } catch (MemFault& e) {
+            reportViolation(s, "fault", "mem", e.what(), nullptr);
+            if (concreteMode) s.notes += std::string("fault ") + e.what() + "\n";
+            finishPath(s, "fault");
+        } catch (EngineError& e) {
+            errors.push_back(std::string("engine: ") + e.what() + " in " + (s.stack.empty() ? "?" : stackStr(s)));
+            st.errors++;
+            finishPath(s, "engine error");
+        } catch (z3::exception& e) {
+            errors.push_back(std::string("z3: ") + e.msg() + " in " + (s.stack.empty() ? "?" : stackStr(s)));
+            st.errors++;
+            finishPath(s, "engine error");
+        }
+    }
+    int jobs = 1;
+    std::string jsonPath;
     void run(Function* entry)
     {
         State s0;
@@ -777,27 +1021,72 @@ public:
         }
         pushFrame(s0, entry, noargs, nullptr);
         work.push_back(std::move(s0));
+        // phase 1: breadth-first until there is enough work to share out
+        size_t spread = jobs > 1 ? (size_t)jobs * 6 : 0;
+        while (!work.empty() && work.size() < spread) {
+            if (st.paths >= maxPaths) break;
+            State s = std::move(work.front());
+            work.erase(work.begin());
+            double t0 = now();
+            runState(s);
+            if (now() - t0 > 0.5 && work.size() >= 2) break;  // states are expensive: share out what there is
+        }
+        int rank = -1;
+        std::vector<pid_t> kids;
+        if (jobs > 1 && work.size() >= 2) {
+            fflush(stdout); fflush(stderr);
+            for (int k = 0; k < jobs; k++) {
+                pid_t pid = fork();
+                if (pid == 0) { rank = k; break; }
+                kids.push_back(pid);
+            }
+            if (rank >= 0) {
+                // child: keep every jobs-th state, reset counters (the parent reports phase 1)
+                std::vector<State> mine;
+                for (size_t i = 0; i < work.size(); i++) if ((int)(i % jobs) == rank) mine.push_back(std::move(work[i]));
+                work = std::move(mine);
+                st = Stats(); viols.clear(); errors.clear();
+                std::reverse(work.begin(), work.end());
+            } else work.clear();
+        }
         while (!work.empty()) {
             if (st.paths >= maxPaths) { errors.push_back("path limit reached"); st.errors++; break; }
+            if (deadline > 0 && now() > deadline) { errors.push_back("time limit reached with " + std::to_string(work.size()) + " states pending"); st.errors++; break; }
             State s = std::move(work.back());
             work.pop_back();
-            try {
-                const char* why = exec(s);
-                finishPath(s, why);
-            } catch (MemFault& e) {
-                std::ostringstream os; os << "memory/UB fault: " << e.what() << " [stack:";
-                for (int i = (int)s.stack.size() - 1, k = 0; i >= 0 && k < 6; i--, k++) os << " " << s.stack[i].fn->getName().str();
-                os << "]";
-                z3::model m(ZC);
-                if (check(s, nullptr, &m) == z3::sat) for (auto& [n, ex] : s.inputs) os << " " << n << "=" << m.eval(ex, true);
-                violations.push_back(os.str()); st.violations++;
-                finishPath(s, "fault");
-            } catch (EngineError& e) {
-                errors.push_back(std::string("engine: ") + e.what() + " in " + (s.stack.empty() ? "?" : s.stack.back().fn->getName().str()));
-                st.errors++;
-                finishPath(s, "engine error");
-            }
+            runState(s);
         }
+        if (rank >= 0) { writeJson(jsonPath + "." + std::to_string(rank)); fflush(stdout); _exit(0); }
+        writeJson(jsonPath + ".main");
+        for (auto pid : kids) { int stt = 0; waitpid(pid, &stt, 0); if (!WIFEXITED(stt) || WEXITSTATUS(stt) != 0) { nChildFail++; } }
+        nKids = kids.size();
+    }
+    int nChildFail = 0; size_t nKids = 0;
+    uint64_t errnoAddr = 0;
+    double deadline = 0;
+    static double now() { return std::chrono::duration<double>(std::chrono::steady_clock::now().time_since_epoch()).count(); }
+    void writeJson(const std::string& path)
+    {
+        std::ofstream o(path);
+        auto strset = [&](const char* k, const std::set<std::string>& v) { o << "\"" << k << "\":["; bool f = true; for (auto& x : v) { o << (f ? "" : ",") << "\"" << jesc(x) << "\""; f = false; } o << "]"; };
+        auto cmap = [&](const char* k, const std::map<std::string, uint64_t>& v) { o << "\"" << k << "\":{"; bool f = true; for (auto& [x, n] : v) { o << (f ? "" : ",") << "\"" << jesc(x) << "\":" << n; f = false; } o << "}"; };
+        o << "{\"paths\":" << st.paths << ",\"insts\":" << st.insts << ",\"ctor_insts\":" << st.ctor_insts << ",\"forks\":" << st.forks << ",\"queries\":" << st.queries
+          << ",\"cache_hits\":" << st.cache_hits << ",\"solver_s\":" << st.solver_s << ",\"symaddr\":" << st.symaddr << ",\"asserts\":" << st.asserts_checked
+          << ",\"max_path_insts\":" << st.max_path_insts << ",\"external_queries\":" << st.external_queries << ",\"external_unsat\":" << st.external_unsat << ",\"errors_n\":" << st.errors << ",";
+        strset("fns", st.fns); o << ","; strset("reach", st.reach); o << ","; strset("keysigs", st.keysigs); o << ",";
+        cmap("assert_ids", st.assert_ids); o << ","; cmap("uncaught", st.uncaught); o << ","; cmap("ends", st.ends); o << ",";
+        o << "\"samples\":["; for (size_t i = 0; i < st.samples.size(); i++) o << (i ? "," : "") << "\"" << jesc(st.samples[i]) << "\""; o << "],";
+        o << "\"errors\":["; for (size_t i = 0; i < errors.size(); i++) o << (i ? "," : "") << "\"" << jesc(errors[i]) << "\""; o << "],";
+        o << "\"violations\":[";
+        for (size_t i = 0; i < viols.size(); i++) {
+            auto& v = viols[i];
+            o << (i ? "," : "") << "{\"kind\":\"" << v.kind << "\",\"id\":\"" << jesc(v.id) << "\",\"msg\":\"" << jesc(v.msg) << "\",\"stack\":\"" << jesc(v.stack) << "\",\"truncated\":" << (v.truncated ? "true" : "false") << ",\"keys\":{";
+            for (size_t k = 0; k < v.keys.size(); k++) o << (k ? "," : "") << "\"" << jesc(v.keys[k].first) << "\":\"" << jesc(v.keys[k].second) << "\"";
+            o << "},\"model\":{";
+            for (size_t k = 0; k < v.model.size(); k++) o << (k ? "," : "") << "\"" << jesc(v.model[k].first) << "\":\"" << jesc(v.model[k].second) << "\"";
+            o << "}}";
+        }
+        o << "]}\n";
     }
     void jump(State& s, BasicBlock* to)
     {
@@ -826,6 +1115,7 @@ public:
         for (;;) {
             if (s.stack.empty()) return "returned";
             if (++s.steps > maxSteps) throw EngineError("step limit");
+            if (s.budget >= 0 && --s.budget < 0) throw MemFault("instruction budget set by the harness exhausted (non-termination or disproportionate work)");
             Frame& f = s.stack.back();
             Instruction& I = *f.it;
             ++f.it;
@@ -852,10 +1142,10 @@ public:
                     st.forks++;
                     State o = s;  // copy
                     o.id = nextState++;
-                    o.pc.push_back(!t);
+                    { z3::expr nt = (!t).simplify(); addPc(o, nt); fixInputs(o, &nt); }
                     jump(o, br.getSuccessor(1));
                     work.push_back(std::move(o));
-                    s.pc.push_back(t);
+                    { z3::expr ts = t.simplify(); addPc(s, ts); fixInputs(s, &ts); }
                     jump(s, br.getSuccessor(0));
                 } else if (mt) jump(s, br.getSuccessor(0));
                 else if (mf) jump(s, br.getSuccessor(1));
@@ -877,13 +1167,13 @@ public:
                     z3::expr eq = c.e == ZC.bv_val(cs.getCaseValue()->getZExtValue(), c.bits);
                     none = none && !eq;
                     if (maybe(base, eq)) {
-                        State o = base; o.id = nextState++; o.pc.push_back(eq);
+                        State o = base; o.id = nextState++; addPc(o, eq); fixInputs(o, &eq);
                         jump(o, cs.getCaseSuccessor());
                         work.push_back(std::move(o)); st.forks++;
                     }
                 }
-                if (maybe(base, none)) { s.pc.push_back(none); jump(s, sw.getDefaultDest()); taken = true; }
-                if (!taken) return "switch-forked";
+                if (maybe(base, none)) { addPc(s, none); jump(s, sw.getDefaultDest()); taken = true; }
+                if (!taken) return "forked";
                 break;
             }
             case Instruction::Unreachable: throw MemFault("reached unreachable");
@@ -902,19 +1192,39 @@ public:
                 if (!t->isIntegerTy() && !t->isPointerTy() && !t->isDoubleTy() && !t->isFloatTy()) throw EngineError("load of aggregate");
                 Val p = applyFixed(s, op(s, I.getOperand(0)));
                 if (p.sym && forkOnAddr) {
-                    auto as = feasibleAddrs(s, p);
+                    unsigned bits = DL.getTypeSizeInBits(t);
+                    auto as = feasibleAddrs(s, p, (bits + 7) / 8);
                     if (as.empty()) return "infeasible";
-                    for (size_t i = 1; i < as.size(); i++) {
-                        State o = s; o.id = nextState++; st.forks++;
-                        o.pc.push_back(p.e == ZC.bv_val(as[i], 64));
-                        fixInputs(o);
-                        Val r = load(o, Val(64, as[i]), DL.getTypeSizeInBits(t));
-                        setReg(o, &I, r);
-                        work.push_back(std::move(o));
+                    // group the feasible addresses by the (concrete) value found there: one fork per distinct value
+                    std::vector<std::pair<Val, std::vector<uint64_t>>> groups;
+                    for (auto a : as) {
+                        Val v;
+                        try { v = load(s, Val(64, a), bits); }
+                        catch (MemFault& mf) {
+                            State o = s; o.id = nextState++;
+                            z3::expr q = p.e == ZC.bv_val(a, 64); addPc(o, q);
+                            reportViolation(o, "fault", "mem", std::string(mf.what()) + " (symbolic address)", nullptr);
+                            continue;
+                        }
+                        bool found = false;
+                        if (!v.sym) for (auto& g : groups) if (!g.first.sym && g.first.c == v.c) { g.second.push_back(a); found = true; break; }
+                        if (!found) groups.push_back({v, {a}});
                     }
-                    s.pc.push_back(p.e == ZC.bv_val(as[0], 64));
-                    fixInputs(s);
-                    setReg(s, &I, load(s, Val(64, as[0]), DL.getTypeSizeInBits(t)));
+                    if (groups.empty()) return "fault-on-all-addresses";
+                    for (size_t gi = 0; gi < groups.size(); gi++) {
+                        z3::expr q = ZC.bool_val(false);
+                        for (auto a : groups[gi].second) q = q || (p.e == ZC.bv_val(a, 64));
+                        q = q.simplify();
+                        if (gi + 1 < groups.size()) {
+                            State o = s; o.id = nextState++; st.forks++;
+                            addPc(o, q); fixInputs(o, &q, true);
+                            setReg(o, &I, groups[gi].first);
+                            work.push_back(std::move(o));
+                        } else {
+                            addPc(s, q); fixInputs(s, &q, true);
+                            setReg(s, &I, groups[gi].first);
+                        }
+                    }
                     break;
                 }
                 setReg(s, &I, load(s, p, DL.getTypeSizeInBits(t)));
@@ -989,6 +1299,12 @@ public:
                         for (uint64_t i = 0; i < n.c; i++) store(s, Val(64, d.c + i), v);
                         break;
                     }
+                    case Intrinsic::fabs: {
+                        Val a = op(s, cb.getArgOperand(0));
+                        uint64_t m = a.bits == 64 ? 0x7fffffffffffffffULL : 0x7fffffffULL;
+                        setReg(s, &I, a.sym ? mkSym(a.bits, a.e & ZC.bv_val(m, a.bits)) : Val(a.bits, a.c & m));
+                        break;
+                    }
                     case Intrinsic::trap: throw MemFault("llvm.trap (abort)");
                     case Intrinsic::eh_typeid_for: setReg(s, &I, Val(32, (uint64_t)typeIdFor(op(s, cb.getArgOperand(0)).c))); break;
                     case Intrinsic::abs: {
@@ -1021,13 +1337,45 @@ public:
                         --s.stack.back().it;  // re-execute the call in every fork
                         for (size_t k = 1; k < as.size(); k++) {
                             State o = s; o.id = nextState++; st.forks++;
-                            o.pc.push_back(args[ai].e == ZC.bv_val(as[k], 64)); fixInputs(o);
+                            { z3::expr q = args[ai].e == ZC.bv_val(as[k], 64); addPc(o, q); fixInputs(o, &q, true); }
                             work.push_back(std::move(o));
                         }
-                        s.pc.push_back(args[ai].e == ZC.bv_val(as[0], 64)); fixInputs(s);
+                        { z3::expr q = args[ai].e == ZC.bv_val(as[0], 64); addPc(s, q); fixInputs(s, &q, true); }
                         forked = true;
                     }
                     if (forked) break;
+                }
+                if (F->isDeclaration() && !concreteMode && (F->getName() == "vf_pick" || F->getName() == "vf_range" || F->getName() == "vf_bool")) {
+                    std::string nm = readCStr(s, args[0].c);
+                    if (!nm.empty() && nm[0] == '!') {
+                        // eager key: one state per value of the domain, the value is concrete from the start
+                        int64_t lo = 0, hi = 1;
+                        if (F->getName() == "vf_range") { lo = args[1].sext(); hi = args[2].sext(); } else if (F->getName() == "vf_pick") hi = args[1].sext() - 1;
+                        if (hi < lo) return "assume-false";
+                        if (hi - lo > 65536) throw EngineError("eager key domain too large");
+                        std::string n = nm.substr(1) + "#" + std::to_string(s.inputs.size());
+                        z3::expr e = ZC.bv_const(n.c_str(), 32);
+                        s.inputs.push_back({n, e}); s.inputKey.push_back(true);
+                        unsigned idx = s.inputs.size() - 1;
+                        if (lo == hi) {
+                            s.fixed.push_back({e, ZC.bv_val((uint64_t)(uint32_t)lo, 32)}); s.fixedIdx.insert(idx);
+                            addPc(s, e == ZC.bv_val((uint64_t)(uint32_t)lo, 32));
+                            setReg(s, &I, Val(32, (uint64_t)lo));
+                            if (auto* inv = dyn_cast<InvokeInst>(&I)) jump(s, inv->getNormalDest());
+                            break;
+                        }
+                        uint64_t done = s.steps; s.steps = 0;
+                        for (int64_t v = hi; v >= lo; v--) {
+                            State o = s; o.id = nextState++; st.forks++;
+                            o.fixed.push_back({e, ZC.bv_val((uint64_t)(uint32_t)v, 32)}); o.fixedIdx.insert(idx);
+                            addPc(o, e == ZC.bv_val((uint64_t)(uint32_t)v, 32));
+                            setReg(o, &I, Val(32, (uint64_t)v));
+                            if (auto* inv = dyn_cast<InvokeInst>(&I)) jump(o, inv->getNormalDest());
+                            work.push_back(std::move(o));
+                        }
+                        s.steps = done;
+                        return "forked";
+                    }
                 }
                 if (F->isDeclaration()) {
                     auto it = ext.find(F->getName().str());
@@ -1117,8 +1465,9 @@ public:
             case Instruction::UIToFP: case Instruction::SIToFP: case Instruction::FPToUI: case Instruction::FPToSI:
             case Instruction::FPExt: case Instruction::FPTrunc: {
                 Val a = op(s, I.getOperand(0));
+                bool srcD = I.getOperand(0)->getType()->isDoubleTy() || I.getOperand(0)->getType()->isX86_FP80Ty(), dstD = I.getType()->isDoubleTy() || I.getType()->isX86_FP80Ty();
+                if (a.sym && (I.getOpcode() == Instruction::FPExt || I.getOpcode() == Instruction::FPTrunc) && srcD && dstD) { setReg(s, &I, a); break; }
                 if (a.sym) throw EngineError("symbolic fp conversion");
-                bool srcD = I.getOperand(0)->getType()->isDoubleTy(), dstD = I.getType()->isDoubleTy();
                 auto asD = [&](const Val& v, bool isD) { if (isD) { double d; memcpy(&d, &v.c, 8); return d; } float f; uint32_t u = v.c; memcpy(&f, &u, 4); return (double)f; };
                 auto fromD = [&](double d, bool isD) { if (isD) { uint64_t u; memcpy(&u, &d, 8); return Val(64, u); } float f = (float)d; uint32_t u; memcpy(&u, &f, 4); return Val(32, u); };
                 switch (I.getOpcode()) {
@@ -1132,7 +1481,25 @@ public:
             }
             case Instruction::FAdd: case Instruction::FSub: case Instruction::FMul: case Instruction::FDiv: case Instruction::FCmp: case Instruction::FNeg: {
                 Val a = op(s, I.getOperand(0)), b = I.getNumOperands() > 1 ? op(s, I.getOperand(1)) : Val(64, 0);
-                if (a.sym || b.sym) throw EngineError("symbolic fp op");
+                if ((a.sym || b.sym) && I.getOpcode() == Instruction::FCmp) {
+                    bool dbl = I.getOperand(0)->getType()->isDoubleTy();
+                    z3::sort fs = dbl ? ZC.fpa_sort(11, 53) : ZC.fpa_sort(8, 24);
+                    z3::expr x = a.ex().mk_from_ieee_bv(fs), y = b.ex().mk_from_ieee_bv(fs);
+                    z3::expr un = x.mk_is_nan() || y.mk_is_nan(), r(ZC);
+                    switch (cast<FCmpInst>(I).getPredicate()) {
+                    case CmpInst::FCMP_OEQ: r = z3::fp_eq(x, y); break; case CmpInst::FCMP_OGT: r = x > y; break; case CmpInst::FCMP_OGE: r = x >= y; break;
+                    case CmpInst::FCMP_OLT: r = x < y; break; case CmpInst::FCMP_OLE: r = x <= y; break; case CmpInst::FCMP_ONE: r = !un && !z3::fp_eq(x, y); break;
+                    case CmpInst::FCMP_ORD: r = !un; break; case CmpInst::FCMP_UNO: r = un; break;
+                    case CmpInst::FCMP_UEQ: r = un || z3::fp_eq(x, y); break; case CmpInst::FCMP_UGT: r = un || x > y; break; case CmpInst::FCMP_UGE: r = un || x >= y; break;
+                    case CmpInst::FCMP_ULT: r = un || x < y; break; case CmpInst::FCMP_ULE: r = un || x <= y; break; case CmpInst::FCMP_UNE: r = un || !z3::fp_eq(x, y); break;
+                    case CmpInst::FCMP_TRUE: r = ZC.bool_val(true); break; case CmpInst::FCMP_FALSE: r = ZC.bool_val(false); break;
+                    default: throw EngineError("fcmp pred");
+                    }
+                    setReg(s, &I, fromBool(r));
+                    break;
+                }
+                if ((a.sym || b.sym) && I.getOpcode() == Instruction::FNeg) { setReg(s, &I, mkSym(a.bits, a.ex() ^ ZC.bv_val((uint64_t)(1ULL << (a.bits - 1)), a.bits))); break; }
+                if (a.sym || b.sym) throw EngineError("symbolic fp arithmetic");
                 bool isD = I.getOperand(0)->getType()->isDoubleTy();
                 auto asD = [&](const Val& v) { if (isD) { double d; memcpy(&d, &v.c, 8); return d; } float f; uint32_t u = v.c; memcpy(&f, &u, 4); return (double)f; };
                 auto fromD = [&](double d) { if (isD) { uint64_t u; memcpy(&u, &d, 8); return Val(64, u); } float f = (float)d; uint32_t u; memcpy(&u, &f, 4); return Val(32, u); };
@@ -1168,23 +1535,35 @@ public:
 
 int main(int argc, char** argv)
 {
-    if (argc < 3) { std::cerr << "usage: llsx file.ll entry [-v]\n"; return 2; }
+    if (argc < 3) { std::cerr << "usage: llsx file.bc entry [--json out] [--jobs n] [--timeout-ms n] [--max-paths n] [--max-steps n] [--time-limit s] [--inputs file] [a=b replace] [-v]\n"; return 2; }
     LLVMContext C; SMDiagnostic E;
     auto M = parseIRFile(argv[1], E, C);
     if (!M) { E.print("llsx", errs()); return 2; }
     Function* F = M->getFunction(argv[2]);
     if (!F) { std::cerr << "no entry " << argv[2] << "\n"; return 2; }
     Exec ex(*M);
-    for (int i = 3; i < argc; i++) { std::string a = argv[i]; auto p = a.find('='); if (p != std::string::npos) ex.replace[a.substr(0, p)] = a.substr(p + 1); else if (a == "-v") ex.verbose = true; }
+    ex.jsonPath = "/dev/null";
+    for (int i = 3; i < argc; i++) {
+        std::string a = argv[i];
+        auto next = [&]() { return std::string(i + 1 < argc ? argv[++i] : ""); };
+        if (a == "-v") ex.verbose = true;
+        else if (a == "--json") ex.jsonPath = next();
+        else if (a == "--jobs") ex.jobs = atoi(next().c_str());
+        else if (a == "--timeout-ms") ex.timeoutMs = atoi(next().c_str());
+        else if (a == "--external") ex.externalCmd = next();
+        else if (a == "--max-paths") ex.maxPaths = strtoull(next().c_str(), 0, 10);
+        else if (a == "--max-steps") ex.maxSteps = strtoull(next().c_str(), 0, 10);
+        else if (a == "--time-limit") ex.deadline = Exec::now() + atof(next().c_str());
+        else if (a == "--inputs") {
+            ex.concreteMode = true;
+            std::ifstream in(next()); std::string n; uint64_t v;
+            while (in >> n >> v) ex.concreteInputs[n] = v;
+        } else { auto p = a.find('='); if (p != std::string::npos) ex.replace[a.substr(0, p)] = a.substr(p + 1); }
+    }
     auto t0 = std::chrono::steady_clock::now();
     try { ex.run(F); } catch (z3::exception& e) { std::cerr << "z3: " << e.msg() << "\n"; return 2; } catch (EngineError& e) { std::cerr << "engine: " << e.what() << "\n"; return 2; }
     double wall = std::chrono::duration<double>(std::chrono::steady_clock::now() - t0).count();
-    std::cout << "paths=" << ex.st.paths << " insts=" << ex.st.insts << " forks=" << ex.st.forks << " queries=" << ex.st.queries
-              << " solver_s=" << ex.st.solver_s << " wall_s=" << wall << " symaddr=" << ex.st.symaddr << " asserts=" << ex.st.asserts_checked << " violations=" << ex.st.violations
-              << " errors=" << ex.st.errors << "\n";
-    for (auto& r : ex.st.reach) std::cout << "reached " << r << "\n";
-    for (auto& [n, c] : ex.st.uncaught) std::cout << "uncaught " << n << " x" << c << "\n";
-    for (auto& v : ex.violations) std::cout << "VIOLATION " << v << "\n";
+    std::cout << "llsx: parts=" << ex.nKids + 1 << " childfail=" << ex.nChildFail << " wall_s=" << wall << " main_paths=" << ex.st.paths << " main_violations=" << ex.viols.size() << " main_errors=" << ex.st.errors << "\n";
     for (auto& e : ex.errors) std::cout << "ERROR " << e << "\n";
-    return ex.st.errors ? 2 : (ex.st.violations ? 1 : 0);
+    return ex.nChildFail ? 3 : 0;
 }
